@@ -284,6 +284,9 @@ pub fn judge_conn(sc: &Scenario, obs: &Obs, res: &RunResult, opts: &JudgeOpts) -
             head: bool,
             interim_100: bool,
             upgrade_rest: Option<usize>,
+            /// a raw writer that the application does not flush: its bytes (and with them
+            /// everything later on the connection) may still sit in the write buffer
+            unflushed: bool,
         }
         let mut wants: Vec<Want> = Vec::new();
         let mut di = 0usize;
@@ -307,11 +310,13 @@ pub fn judge_conn(sc: &Scenario, obs: &Obs, res: &RunResult, opts: &JudgeOpts) -
                                 head,
                                 interim_100: interim,
                                 upgrade_rest: None,
+                                unflushed: false,
                             }
                         }
-                        Finish::Writer { parts, .. } => {
+                        Finish::Writer { parts, flush } => {
                             // the application's own bytes define the message, whatever the method
                             let head = false;
+                            let not_flushed = !*flush;
                             let all: Vec<u8> = parts.concat();
                             let st = parse_stream(&all, &[head]);
                             match st.finals().first() {
@@ -322,8 +327,9 @@ pub fn judge_conn(sc: &Scenario, obs: &Obs, res: &RunResult, opts: &JudgeOpts) -
                                     head,
                                     interim_100: interim,
                                     upgrade_rest: None,
+                                    unflushed: not_flushed,
                                 },
-                                None => Want { status: 0, id: None, body: None, head, interim_100: interim, upgrade_rest: None },
+                                None => Want { status: 0, id: None, body: None, head, interim_100: interim, upgrade_rest: None, unflushed: false },
                             }
                         }
                         Finish::Upgrade => Want {
@@ -333,8 +339,9 @@ pub fn judge_conn(sc: &Scenario, obs: &Obs, res: &RunResult, opts: &JudgeOpts) -
                             head,
                             interim_100: false,
                             upgrade_rest: Some(di),
+                            unflushed: false,
                         },
-                        Finish::RespondFailingReader { .. } => Want { status: 0, id: None, body: None, head, interim_100: false, upgrade_rest: None },
+                        Finish::RespondFailingReader { .. } => Want { status: 0, id: None, body: None, head, interim_100: false, upgrade_rest: None, unflushed: false },
                         Finish::Drop | Finish::Panic => Want {
                             status: 500,
                             id: None,
@@ -344,6 +351,7 @@ pub fn judge_conn(sc: &Scenario, obs: &Obs, res: &RunResult, opts: &JudgeOpts) -
                             head,
                             interim_100: interim,
                             upgrade_rest: None,
+                            unflushed: false,
                         },
                     };
                     wants.push(w);
@@ -356,6 +364,7 @@ pub fn judge_conn(sc: &Scenario, obs: &Obs, res: &RunResult, opts: &JudgeOpts) -
                     head: false,
                     interim_100: false,
                     upgrade_rest: None,
+                    unflushed: false,
                 }),
                 Expect::SilentClose | Expect::Incomplete | Expect::DontCare(_) => (),
             }
@@ -379,10 +388,18 @@ pub fn judge_conn(sc: &Scenario, obs: &Obs, res: &RunResult, opts: &JudgeOpts) -
         let finals = st.finals();
         let got_statuses: Vec<u16> = finals.iter().map(|m| m.status).collect();
         let want_statuses: Vec<u16> = wants.iter().map(|w| w.status).collect();
+        // from the first raw response that the application did not flush onwards, answers may
+        // still sit in the connection's write buffer when the script is over: everything
+        // BEFORE it must have arrived, what is there must be a prefix of what is expected
+        let first_unflushed = wants.iter().position(|w| w.unflushed);
         let statuses_ok = if dont_care {
             got_statuses.len() >= want_statuses.len() && got_statuses[..want_statuses.len()] == want_statuses[..]
+        } else if got_statuses == want_statuses {
+            true
+        } else if let Some(k) = first_unflushed {
+            got_statuses.len() >= k && got_statuses.len() <= want_statuses.len() && got_statuses[..] == want_statuses[..got_statuses.len()]
         } else {
-            got_statuses == want_statuses
+            false
         };
         if !statuses_ok && st.error.is_none() {
             fail(
